@@ -310,7 +310,7 @@ Qed.
 Lemma decoded_align ma kv ts :
   NoDup (map fst kv) -> kv_uint val_u32 (expected_kv ma kv ts) k_alignment 32 = walign kv.
 Proof.
-  intro Hnd. unfold kv_uint, walign. rewrite expected_kv_get by exact Hnd.
+  intro Hnd. unfold walign, kv_uint. rewrite expected_kv_get by exact Hnd.
   change (eqb_str k_alignment k_param_count) with false. cbv iota.
   destruct (kv_get k_alignment kv) as [w|]; [|reflexivity]. cbn [option_map].
   destruct w; cbn [val_of_wval clip val_u32 wval_u32]; try reflexivity;
@@ -350,6 +350,73 @@ Proof.
   - unfold padded at 3. rewrite (padN_of_aligned 0) by (try apply N.mod_0_l; lia). lia.
   - exact Hsz.
   - unfold small, nlen in *. rewrite app_length in Hsmall. fold data. unfold nlen. lia.
-  - unfold hdr_tinfos. unfold nlen in Hseek at 1 2. fold data in Hseek. rewrite Hseek.
-    eexists. f_equal. f_equal. unfold nlen. rewrite app_length. f_equal. lia.
+  - unfold hdr_tinfos. fold (nlen h) in data. fold data in Hseek. rewrite Hseek.
+    eexists. f_equal. f_equal. f_equal. unfold nlen. rewrite app_length. lia.
 Qed.
+
+(** bytes at the decoded location, in the whole file *)
+Theorem tensor_bytes kv ts i t o :
+  Forall (fun e => wf_wval (snd e)) kv -> Forall sized ts -> 0 < walign kv -> small (write_ordered true kv ts) ->
+  nth_error ts i = Some t -> nth_error (offsets true (walign kv) 0 ts) i = Some o ->
+  firstn (length (t_data t)) (skipn (N.to_nat (data_start kv ts + o)) (write_ordered true kv ts)) = t_data t
+  /\ (data_start kv ts + o) mod walign kv = 0.
+Proof.
+  intros Hkv Hsz Hal Hsmall Ht Ho.
+  unfold write_ordered in *. set (h := write_header true kv ts) in *. cbv zeta in *.
+  pose proof (walign_lt kv Hkv) as Hal32.
+  assert (Hal64 : walign kv < two64) by (unfold two32, two64 in *; lia).
+  destruct (layout ts (walign kv) (nlen h) 0 (padded (nlen h) (walign kv)) Hal Hal64) as [_ Hb].
+  - apply padN_aligned. exact Hal.
+  - unfold padded at 3. rewrite (padN_of_aligned 0) by (try apply N.mod_0_l; lia). lia.
+  - exact Hsz.
+  - unfold small, nlen in *. rewrite app_length in Hsmall. lia.
+  - destruct (Hb i t o Ht Ho) as (Hle & Hmod & Hdata). unfold data_start. fold h. split; [|exact Hmod].
+    fold (nlen h). rewrite skipn_app. rewrite skipn_all2 by (unfold nlen in *; lia). cbn [app].
+    replace (N.to_nat (padded (nlen h) (walign kv) + o) - length h)%nat with (N.to_nat (padded (nlen h) (walign kv) + o - nlen h)) by (unfold nlen in *; lia).
+    exact Hdata.
+Qed.
+
+(** ** the stable sort only permutes *)
+Lemma insert_ts_perm {T} (block : T -> Z) x l : Permutation (x :: l) (insert_ts block x l).
+Proof.
+  induction l as [|y l IH]; cbn [insert_ts]; [apply Permutation_refl|].
+  destruct (cmp_block (block x) (block y) <? 0)%Z; [|apply Permutation_refl].
+  eapply Permutation_trans; [apply perm_swap | apply perm_skip, IH].
+Qed.
+
+Lemma sort_ts_perm {T} (block : T -> Z) ts : Permutation ts (sort_ts block ts).
+Proof.
+  unfold sort_ts.
+  assert (H : forall acc, Permutation (rev acc ++ ts) (rev (fold_left (fun acc x => insert_ts block x acc) ts acc))).
+  { induction ts as [|x ts IH]; intro acc; cbn [fold_left].
+    - rewrite app_nil_r. apply Permutation_refl.
+    - eapply Permutation_trans; [|apply IH].
+      apply Permutation_app_tail with (tl := ts) (l := rev acc ++ [x]) (l' := rev (insert_ts block x acc)) in IH || idtac.
+      rewrite (app_assoc (rev acc) [x] ts) || idtac.
+      change (x :: ts) with ([x] ++ ts). rewrite app_assoc. apply Permutation_app_tail.
+      eapply Permutation_trans; [|apply Permutation_rev].
+      eapply Permutation_trans; [|apply insert_ts_perm].
+      eapply Permutation_trans; [apply Permutation_app_comm|]. cbn [app]. apply perm_skip. apply Permutation_sym, Permutation_rev. }
+  apply (H []).
+Qed.
+
+(** parameter count does not depend on the tensor order *)
+Definition psum (ts : list tensor) : N := fold_right (fun t acc => parameters (t_shape t) + acc) 0 ts.
+
+Lemma wparams_psum ts : wparams ts = psum ts mod two64.
+Proof.
+  unfold wparams.
+  assert (H : forall c, fold_left (fun c t => wrap64 (c + parameters (t_shape t))) ts (c mod two64) = (c + psum ts) mod two64).
+  { induction ts as [|t r IH]; intro c; cbn [fold_left psum fold_right].
+    - rewrite N.add_0_r. reflexivity.
+    - unfold wrap64 at 2. rewrite N.add_mod_idemp_l by discriminate. rewrite IH. fold (psum r). f_equal. lia. }
+  specialize (H 0). rewrite N.mod_0_l in H by discriminate. rewrite H. reflexivity.
+Qed.
+
+Lemma psum_perm a b : Permutation a b -> psum a = psum b.
+Proof.
+  unfold psum. induction 1 as [|x l l' _ IH|x y l|l l' l'' _ IH1 _ IH2]; cbn [fold_right]; [reflexivity | rewrite IH; reflexivity | lia | congruence].
+Qed.
+
+Lemma wparams_perm a b : Permutation a b -> wparams a = wparams b.
+Proof. intro H. rewrite !wparams_psum, (psum_perm a b H). reflexivity. Qed.
